@@ -4,6 +4,7 @@ package props
 
 import (
 	"bytes"
+	"os"
 	"strings"
 	"testing"
 
@@ -121,6 +122,44 @@ func checkC01(c CaseC01, info *Info) *Failure {
 		m5, err := x2j.XmlToMap([]byte(doc))
 		if f := cmp("x2j.XmlToMap", m5, err); f != nil {
 			return f
+		}
+	}
+	if !c.Opts.Cast {
+		// the bulk handlers and (for a sample of the cases: file I/O) the file readers decode with the same conventions
+		var seen []map[string]interface{}
+		herr := mxj.HandleXmlReader(strings.NewReader(doc+"\n"+doc), func(m mxj.Map) bool { seen = append(seen, m); return true }, func(error) bool { return false })
+		if herr != nil || len(seen) != 2 {
+			return failf("decode-error", "HandleXmlReader on the document twice: %d Maps, error %v", len(seen), herr)
+		}
+		for _, m := range seen {
+			if f := cmp("HandleXmlReader", m, nil); f != nil {
+				return f
+			}
+		}
+		if len(doc)%4 == 0 {
+			if fh, ferr := os.CreateTemp(os.Getenv("VERIF_SCRATCH"), "c01-*.xml"); ferr == nil {
+				name := fh.Name()
+				fh.WriteString(doc + "\n" + doc)
+				fh.Close()
+				ms, merr := mxj.NewMapsFromXmlFile(name)
+				mr, rerr := mxj.NewMapsFromXmlFileRaw(name)
+				os.Remove(name)
+				if merr != nil || rerr != nil || len(ms) != 2 || len(mr) != 2 {
+					return failf("decode-error", "NewMapsFromXmlFile[Raw] on the document twice: %d / %d Maps, errors %v / %v", len(ms), len(mr), merr, rerr)
+				}
+				for i := range ms {
+					if f := cmp("NewMapsFromXmlFile", ms[i], nil); f != nil {
+						return f
+					}
+					if f := cmp("NewMapsFromXmlFileRaw", mr[i].M, nil); f != nil {
+						return f
+					}
+					if !bytes.Contains(mr[i].R, []byte(c.Doc.String())) {
+						return failf("raw-mismatch", "NewMapsFromXmlFileRaw raw %q does not contain the document %q", mr[i].R, c.Doc.String())
+					}
+				}
+				info.Class("file readers compared")
+			}
 		}
 	}
 
